@@ -28,6 +28,8 @@ MUTANTS = [
     ("index_sorted_flag_stale", C, "            self._index_is_sorted = True  # not necessary to sort now", "            self._index_is_sorted = False", ["C03"], False),
     ("cummax_reuses_input_as_target", N, "    target = _build_target_for_groupby(\n        values[0].dtype, \"sum\" if counting else operation, len(group_key)\n    )", "    target = _build_target_for_groupby(\n        values[0].dtype, \"sum\" if counting else operation, len(group_key)\n    )\n    if operation in (\"max\", \"min\") and len(values) == 1 and values[0].flags.writeable and values[0].flags.c_contiguous:\n        target = values[0]  # same dtype and length: save the allocation", ["C19"], True),
     ("unify_clears_shared_pointer_list", C, "                chunks.append(unified)\n            self._group_key_pointers = None", "                chunks.append(unified)\n            self._group_key_pointers.clear()  # free the tables eagerly\n            self._group_key_pointers = None", ["C13"], True),
+    ("pointers_not_restored_after_failed_pool_call", C, "        results, counts = zip(*parallel_map(func, arg_list))\n", "        pointers, self._group_key_pointers = self._group_key_pointers, None  # baked into arg_list already\n        results, counts = zip(*parallel_map(func, arg_list))\n        self._group_key_pointers = pointers\n", ["C13", "C19"], True),
+    ("pointers_restored_on_Exception_only", C, "        results, counts = zip(*parallel_map(func, arg_list))\n", "        pointers, self._group_key_pointers = self._group_key_pointers, None  # baked into arg_list already\n        try:\n            results, counts = zip(*parallel_map(func, arg_list))\n        except Exception:  # (should have been `finally`: Ctrl-C is not an Exception)\n            self._group_key_pointers = pointers\n            raise\n        self._group_key_pointers = pointers\n", ["C13"], True),
     ("slice_mask_written", N, "        values = values[mask]\n        group_key = group_key[mask]\n        mask = None", "        values = values[mask]\n        group_key = group_key[mask]\n        mask = None\n        if isinstance(values, np.ndarray) and values.flags.writeable and values.dtype.kind == \"f\":\n            values[np.isnan(values)] = np.nan", ["C19"], False),
 ]
 
